@@ -81,6 +81,10 @@ def rule_r2_r3_r4(ctx, rep, sl, mps):
     w = ctx.world
     verr = prog.cls(VERR)
     members = set(prog.enum_members(verr))
+    from ..astutil import enum_aliases
+    for (m2, m1) in enum_aliases(prog, verr):
+        rep.oblige(("R4", "distinct", m2), False)
+        rep.add("R4", VERR, f"member {m2}", f"{m2} has the same value as {m1}: the two error codes cannot be told apart in the collected list", verr.module.relpath)
     for fi in sl:
         mp = mps.get(fi.qname)
         if mp is None:
